@@ -71,10 +71,9 @@ contract("parse:Parser.parse_filter_expression", heavy=True, mutates=ST, require
 contract("parse:Parser.parse_root_query", mutates=ST, requires=P_REQ + ["stream.current.type_ == TokenType.ROOT"],
     ensures=P_ENS, raises=ERR, raises_ensures=P_EXC, unfold=UNF, props=["C05", "C13"])
 contract("parse:Parser.parse_relative_query", mutates=ST, requires=P_REQ, ensures=P_ENS, raises=ERR, raises_ensures=P_EXC, unfold=UNF, props=["C05", "C13"])
-contract("parse:Parser.parse_function_extension", heavy=True, mutates=ST, requires=P_REQ, ensures=P_ENS, raises=ERR, raises_ensures=P_EXC, unfold=UNF, dispatch=TBL,
-    note="NOT discharged: 47 of its 48 postcondition paths and all its safety / precondition obligations are (10 min of solver time); the normal-return "
-         "path after the argument loop stays `unknown` (a quantifier inside the definitional instance of wf_call_e is not instantiated). Its callers use "
-         "the contract as an assumption; the bounded C05 run decides the behaviour.",
+contract("parse:Parser.parse_function_extension", heavy=True, open_goal=True, mutates=ST, requires=P_REQ, ensures=P_ENS, raises=ERR, raises_ensures=P_EXC, unfold=UNF, dispatch=TBL,
+    note="discharged (0 undecided; the goal's predicate applications are opened before skolemisation: open_goal) but takes 9-10 minutes (11-way table dispatch "
+         "inside two nested loops): run in the thorough tier only",
     loops={1: ["is_arr(function_arguments)", "all(parsed_expr(a, self.env) for a in seq(function_arguments))", "ts_inv(stream)", "is_tok(tok)"],
            2: ["is_arr(function_arguments)", "all(parsed_expr(a, self.env) for a in seq(function_arguments))", "ts_inv(stream)", "is_tok(tok)",
                "parsed_expr(expr, self.env)", "peek_kind == ts_next(stream).type_"]},
